@@ -5,12 +5,14 @@ ID=$1; WT=$2; OUT=$3; CRATE=$4; FILTER=$5; shift 5
 LOG=$OUT/confirm.log
 export CARGO_TARGET_DIR=$WT/target CARGO_NET_OFFLINE=true
 cd $WT && git reset -q --hard HEAD && git clean -fdq -e target
+# cargo decides by mtime: touch every file either diff mentions after each change of the tree (a reset within the same second is otherwise missed)
+touchall() { sleep 1; for f in $(grep -h "^+++ b/" $OUT/patch.diff $OUT/demo.diff | sed "s#^+++ b/##"); do [ -f $f ] && touch $f; done; }
 {
-echo "== clean tree + demo"; git apply $OUT/demo.diff || { echo APPLY-DEMO-FAILED; exit 1; }
+echo "== clean tree + demo"; git apply $OUT/demo.diff || { echo APPLY-DEMO-FAILED; exit 1; }; touchall
 (cd node && cargo test --offline -j 8 -p $CRATE -- "$FILTER" 2>&1 | grep -E "^test |test result|error" | tail -8)
-echo "== patch + demo"; git apply $OUT/patch.diff || { echo APPLY-PATCH-FAILED; exit 1; }
+echo "== patch + demo"; git apply $OUT/patch.diff || { echo APPLY-PATCH-FAILED; exit 1; }; touchall
 (cd node && cargo test --offline -j 8 -p $CRATE -- "$FILTER" 2>&1 | grep -E "^test |test result|error|panicked" | tail -8)
-echo "== patch only, existing tests"; git reset -q --hard HEAD && git clean -fdq -e target && git apply $OUT/patch.diff
+echo "== patch only, existing tests"; git reset -q --hard HEAD && git clean -fdq -e target && git apply $OUT/patch.diff; touchall
 for c in $CRATE "$@"; do (cd node && cargo test --offline -j 8 -p $c 2>&1 | grep -E "test result|FAILED|failed" | tail -6); done
 git reset -q --hard HEAD && git clean -fdq -e target
 echo "== done"
